@@ -30,7 +30,7 @@ def check(ctx, world):
         "on the complementary condition. Z6: the fingerprint term of the reader hashes the encoding of every parameter "
         "element that the role's start()/finish() terms use (A, B: M and N; Symmetric: S) and depends on the reader's own "
         "params argument. Z8: the returned instance holds the reader's params argument (not a default).")
-    ctx.min_obligations = 29
+    ctx.min_obligations = 26
     ev = session.new_ev(world)
     models = {}
     for cname in session.PUBLIC_CLASSES:
